@@ -409,6 +409,67 @@ class AddComponent(FnContract):
             P.check(qn + "/ensures:nothing-announced", not [e for e in st.events if isinstance(e, PObj)])
 
 
+
+class UpdateWorldComponents(FnContract):
+    """replacement of the world-coordinate attributes when a dataset gets (other) coordinates"""
+    property_ids = ('C17', 'C15')
+    target = DATA + ":Data._update_world_components"
+    title = ("every previous world attribute is removed (through remove_component, hence announced) and leaves the world list; with coordinates exactly one new world attribute per "
+             "axis is added, in axis order, and the coordinate links are rebuilt afterwards; without coordinates the world list ends empty; all of it inside one delay block of the hub")
+
+    def configs(self, tier):
+        return [dict(old=o, ndim=n, coords=c) for o in (0, 1, 2, 3) for n in (1, 2, 3) for c in (True, False)]
+
+    def inputs(self, cfg, P):
+        ev = []
+        old = [PObj('ComponentID', fields={'name': 'old-world-%d' % i}) for i in range(cfg['old'])]
+        hub = PObj('Hub')
+        hub.methods['delay_callbacks'] = lambda I, s: ('__cm__', lambda: ev.append(('delay', 'open')), lambda exc: ev.append(('delay', 'close')))
+        d = PObj('Data', fields={'_world_component_ids': PList(list(old)), 'hub': hub, 'coords': PObj('coords') if cfg['coords'] else None,
+                                 '_pixel_component_ids': PList([])})
+        d.methods['remove_component'] = lambda I, s, cid: ev.append(('remove', cid))
+
+        def add(I, s, comp, label):
+            cid = PObj('ComponentID', fields={'name': label})
+            ev.append(('add', comp, cid))
+            return cid
+        d.methods['add_component'] = add
+        d.methods['_set_up_coordinate_component_links'] = lambda I, s, n: ev.append(('links', n, list(s.fields['_world_component_ids'].items)))
+        st = St(d=d, ev=ev, old=old)
+        return Inputs([d, cfg['ndim']], st=st)
+
+    def globals_(self, cfg, st):
+        return {'CoordinateComponent': Builtin('CoordinateComponent', lambda I, data, axis, world=False: PObj('CoordinateComponent', fields={'data': data, 'axis': axis, 'world': world})),
+                'axis_label': Builtin('axis_label', lambda I, coords, i: ('label-of-axis', i)),
+                'settings': PObj('settings', fields={'AUTO_COMPUTE_COORDS_LINKS': True})}
+
+    def finish(self, cfg, st, P, outcome):
+        qn = "Data._update_world_components[%s]" % self.cfg_name(cfg)
+        P.check(qn + "/does-not-raise", outcome[0] == 'return')
+        ev = st.ev
+        now = st.d.fields['_world_component_ids']
+        items = now.items if isinstance(now, PList) else None
+        P.check(qn + "/ensures:world-list-is-a-list", items is not None)
+        if items is None:
+            return
+        removed = [e[1] for e in ev if e[0] == 'remove']
+        P.check(qn + "/ensures:every-previous-world-attribute-removed-exactly-once", len(removed) == len(st.old) and all(any(r is o for r in removed) for o in st.old))
+        P.check(qn + "/ensures:no-previous-world-attribute-left-in-the-world-list", not any(x is o for x in items for o in st.old))
+        adds = [e for e in ev if e[0] == 'add']
+        if cfg['coords']:
+            ok = len(adds) == cfg['ndim'] and all(a[1].cls == 'CoordinateComponent' and a[1].fields['axis'] == i and a[1].fields['world'] is True and a[1].fields['data'] is st.d
+                                                    and a[2].fields['name'] == ('label-of-axis', i) for i, a in enumerate(adds))
+            P.check(qn + "/ensures:one-new-world-attribute-per-axis-in-axis-order", ok)
+            P.check(qn + "/ensures:world-list-is-exactly-the-new-attributes-in-axis-order", len(items) == len(adds) and all(x is a[2] for x, a in zip(items, adds)))
+            links = [e for e in ev if e[0] == 'links']
+            P.check(qn + "/ensures:coordinate-links-rebuilt-once-from-the-complete-new-list",
+                    len(links) == 1 and links[0][1] == cfg['ndim'] and len(links[0][2]) == len(adds) and all(x is a[2] for x, a in zip(links[0][2], adds)))
+        else:
+            P.check(qn + "/ensures:no-coordinates-no-world-attributes", not adds and not items and not [e for e in ev if e[0] == 'links'])
+        kinds = [e[0] for e in ev]
+        P.check(qn + "/ensures:all-changes-inside-one-delay-block", kinds.count('delay') == 2 and ev[0] == ('delay', 'open') and ev[-1] == ('delay', 'close'))
+
+
 class _SymMembers(PObj):
     """a list of identifiers with symbolic membership (result of link.get_from_ids())"""
 
@@ -420,4 +481,4 @@ class _SymMembers(PObj):
         self.methods['__iter__'] = lambda I, s: PList([u for u, f in zip(universe, flags) if I.path.branch(f)])
 
 
-CONTRACTS = [FindComponentID(), UpdateID(), ReorderComponents(), RemoveComponent(), AddComponent()]
+CONTRACTS = [FindComponentID(), UpdateID(), ReorderComponents(), RemoveComponent(), AddComponent(), UpdateWorldComponents()]
